@@ -89,6 +89,8 @@ def _gen_cli(rng, cfg, files, wsdocs, nout):
         op["ws"] = wsf
         op["measurement"] = pick(ms, "no_such_measurement") if rng.random() < 0.6 else None
         op["patches"] = rng.sample(patchfiles, min(len(patchfiles), rng.choice([0, 0, 1, 2]))) if patchfiles and wsf in cfg["orig_ws"] else []
+        if op["patches"] and rng.random() < 0.3:
+            op["patch_stdin"] = rng.randrange(len(op["patches"]))
         be = rng.choices(["numpy", "np", "jax", "pytorch", "torch", "tensorflow", "tf"], weights=[6, 2, cfg["be_w"], cfg["be_w"], cfg["be_w"] / 2, cfg["be_w"] / 2, cfg["be_w"] / 2])[0]
         op["backend"] = be if rng.random() < 0.7 or be not in ("numpy",) else None
         op["optimizer"] = rng.choice([None, "scipy", "minuit"])
@@ -174,6 +176,8 @@ def _gen_cli(rng, cfg, files, wsdocs, nout):
         op["resultprefix"] = rng.choice([None, "FitConfig", "pfx"])
         # --patch may be repeated: the patches apply one after the other to the document read
         op["patches"] = rng.sample(patchfiles, min(len(patchfiles), rng.choice([0, 1, 2, 2]))) if patchfiles and wsf in cfg["orig_ws"] else []
+        if op["patches"] and rng.random() < 0.3:
+            op["patch_stdin"] = rng.randrange(len(op["patches"]))
         op["out"] = None
         op["both_outputs"] = False
     elif cmd == "xml2json":
@@ -208,7 +212,7 @@ def gen(rng: random.Random, k: int, tier: str) -> dict:
         if i == 0:
             for j in range(rng.randint(0, 2)):
                 pn = f"patch{j}.json"
-                ops.append({"op": "write", "name": pn, "kind": "patch", "doc": G.gen_patch_ops(rng, ws, rng.randint(1, 2))})
+                ops.append({"op": "write", "name": pn, "kind": "patch", "doc": G.gen_patch_ops(rng, ws, rng.randint(1, 2), channels_only=rng.random() < 0.6)})
                 files[pn] = "patch"
     nout = 0
     for _ in range(cfg["len"]):
@@ -379,8 +383,9 @@ class World:
             a = [cmd, inp(op["ws"], via)]
             if op.get("measurement") is not None:
                 a += ["--measurement", op["measurement"]]
-            for p in op.get("patches", []):
-                a += ["-p", p]
+            for i, p in enumerate(op.get("patches", [])):
+                # '-p -' reads that patch from standard input (only possible when the workspace comes from a file)
+                a += ["-p", inp(p, "stdin") if (op.get("patch_stdin") == i and via == "path") else p]
             if op.get("backend"):
                 a += ["--backend", op["backend"]]
             if op.get("optimizer"):
@@ -438,8 +443,8 @@ class World:
             a = ["patchset", "inspect", inp(op["patchset"], via)]
         elif cmd == "json2xml":
             a = [cmd, inp(op["ws"], via), "--output-dir", op["outdir"]]
-            for p in op.get("patches", []):
-                a += ["-p", p]
+            for i, p in enumerate(op.get("patches", [])):
+                a += ["-p", inp(p, "stdin") if (op.get("patch_stdin") == i and via == "path") else p]
             for flag, key in (("--specroot", "specroot"), ("--dataroot", "dataroot"), ("--resultprefix", "resultprefix")):
                 if op.get(key):
                     a += [flag, op[key]]
